@@ -138,6 +138,31 @@ def run(p, led, tier):
                 n = sum(1 for st in w.body for _ in la.self_calls(m, within=st))
                 led.ok("C09-R1", key, where(m, w), f"{n} same-instance call(s) inside the region; none can acquire self.{a} ({la.locks[a]})")
 
+    # ---------------- R1b no process-wide lock around user callbacks: an observer of one lifecycle may drive another one
+    # (start a successor, terminate a sibling); with a module-level non-re-entrant lock held while observers run, the inner
+    # notification waits for the outer one for ever
+    mod_locks = {}
+    for st_ in tel.module.tree.body:
+        if isinstance(st_, ast.Assign) and isinstance(st_.value, ast.Call) and (src(st_.value.func).endswith("Lock") and "RLock" not in src(st_.value.func)):
+            for t_ in st_.targets:
+                if isinstance(t_, ast.Name):
+                    mod_locks[t_.id] = st_
+    n_mod = 0
+    for f_ in [f for f in p.all_funcs if f.module is tel.module]:
+        for w_ in walk_no_nested(f_.node):
+            if isinstance(w_, ast.With) and any(isinstance(i_.context_expr, ast.Name) and i_.context_expr.id in mod_locks for i_ in w_.items):
+                params_ = set(f_.params())
+                for c_ in [c for st2 in w_.body for c in ast.walk(st2) if isinstance(c, ast.Call)]:
+                    fn_ = c_.func
+                    is_cb = (isinstance(fn_, ast.Name) and fn_.id in params_) or (is_self_attr(fn_) and fn_.attr.startswith("on_"))
+                    if is_cb:
+                        n_mod += 1
+                        led.fail("C09-R1", f"{f_.qual} ▸ `{short(c_, 50)}` under a module-level lock", where(f_, c_),
+                                 "a user callback runs while a process-wide non-re-entrant lock is held: an observer that drives another lifecycle (whose own observers are notified the same way) never returns",
+                                 witness="worker.on_senescence starts a successor Telomere that has an on_phase_change: worker.tick() hangs")
+    if mod_locks and not n_mod:
+        led.ok("C09-R1", "telomere ▸ module-level locks", tel.module.rel, f"{len(mod_locks)} module-level lock(s); none is held around a user callback", nontrivial=False)
+
     # ---------------- fdai tables
     public = [m for m in tel.methods.values() if not m.name.startswith("_")]
     if len(public) < 10:
@@ -350,6 +375,41 @@ def run(p, led, tier):
         led.fail("C09-R6", key, where(renew, renew.node), f"a terminated lifecycle is renewed on {len(bad)}/{len(paths)} path(s)")
     else:
         led.ok("C09-R6", key, where(renew, renew.node), f"{len(paths)} path(s): nothing written, False returned")
+    # a limit changed on a running lifecycle through the public attribute the constructor stored it in is the limit from
+    # then on (nothing is snapshotted at construction)
+    init_ = tel.methods["__init__"]
+    pub = {}
+    for n_ in walk_no_nested(init_.node):
+        if isinstance(n_, ast.Assign) and len(n_.targets) == 1 and is_self_attr(n_.targets[0]) and not n_.targets[0].attr.startswith("_"):
+            for cfgname in ("max_lifetime_hours", "idle_timeout_minutes"):
+                if any(isinstance(x, ast.Name) and x.id == cfgname for x in ast.walk(n_.value)):
+                    pub[cfgname] = n_.targets[0].attr
+    chk = p.find_method(tel, "check_timeouts")
+    for cfgname, attr in sorted(pub.items()):
+        key = f"Telomere.check_timeouts ▸ `{attr}` reassigned on a running lifecycle is the limit that is enforced"
+        def go_l(o, _attr=attr):
+            it, obj = make(o, "ACTIVE")
+            try:
+                it.set_attr(obj, _attr, Unknown(_attr + "′"))
+            except PyRaise:
+                raise SkipPath("the setter rejects the new limit")
+            it.decisions.clear()
+            try:
+                it.call_fi(chk, [obj], {})
+            except PyRaise:
+                pass
+            return [d[2] for d in it.decisions if isinstance(d[2], str)]
+        try:
+            lp = [r for _, r in explore(go_l, max_paths=400)]
+        except Imprecise as e:
+            raise AnchorError(f"check_timeouts after a limit change could not be interpreted: {e}")
+        new_seen = any((attr + "′") in d for r in lp for d in r)
+        old_seen = any(cfgname in d and (attr + "′") not in d for r in lp for d in r)
+        if lp and not new_seen:
+            led.fail("C09-R6", key, where(chk, chk.node), f"after `lifecycle.{attr} = …` no path of check_timeouts looks at the new value" + (f" (the value given to the constructor, `{cfgname}`, is still compared)" if old_seen else "") + ": the time limit no longer forces senescence",
+                     witness=f"t.{attr} = timedelta(hours=1) on a running agent, clock +2 h: check_timeouts() is True, the agent stays ACTIVE")
+        elif lp:
+            led.ok("C09-R6", key, where(chk, chk.node), f"{len(lp)} path(s): the reassigned value is the one compared")
     limits = [("record_error", (ERR, "error_threshold"), "error limit"), ("check_timeouts", (STARTED, "max_lifetime_hours"), "lifetime limit"),
               ("check_timeouts", (LASTACT, "idle_timeout_minutes"), "idle limit")]
     for mname, (a_n, b_n), what in limits:
